@@ -230,6 +230,7 @@ def canon_tree(tree):
     from sa import model as _m
     _m._canonicalise_subscripts(tree)
     _m._canonicalise_comparisons(tree)
+    _m._canonicalise_shape0(tree)
     return tree
 
 
